@@ -1,41 +1,48 @@
 (* "Free AND UNCONTENDED" (C09): the key-level theorems about acquisitions that
    succeed, as statements about the real sync.Mutex / sync.RWMutex.
 
-   The trusted mutex machine of SyncMap/Model.v ([umutex], [step_post]) has no
-   queue of waiters: in it RLock proceeds and TryRLock succeeds whenever the
-   mutex is not write-LOCKED, and TryLock succeeds whenever it is free. Go's
-   sync.RWMutex additionally refuses new readers (RLock blocks, TryRLock returns
-   false) while a writer is WAITING inside Lock, and sync.Mutex.TryLock may fail
-   on a free mutex that has queued waiters (starvation mode). The property says
-   "succeed when the key is free and uncontended", so the theorems about
-   succeeding acquisitions carry the hypothesis [uncontended c t k]: no OTHER
-   thread stands at the blocking Lock / RLock step (KM_Lock, KRW_Lock,
-   KRW_RLock) of a call on the same key, i.e. nobody can be queued inside the
-   key's mutex. The [_machine] theorems of InsertOnly.v / ClearKey.v /
-   Progress.v (no such hypothesis) are facts about the abstract machine only and
-   are not exported as property theorems.
+   The trusted mutex machine of SyncMap/Model.v ([umutex], [step_post]) takes
+   every mutex operation as ONE atomic step and has no queue of waiters: in it
+   RLock proceeds and TryRLock succeeds whenever the mutex is not write-LOCKED,
+   and TryLock succeeds whenever it is free. Go's mutexes are weaker in two ways:
+   - sync.RWMutex refuses new readers (RLock blocks, TryRLock returns false)
+     while a writer is WAITING inside Lock, and sync.Mutex.TryLock may fail on a
+     free mutex that has queued waiters (starvation mode);
+   - sync.RWMutex.TryLock and Unlock are several atomic operations (TryLock:
+     rw.w.TryLock, then a CAS on readerCount, and rw.w.Unlock when the CAS
+     fails; Unlock restores readerCount before rw.w.Unlock), so a TryLock is
+     not linearizable against an overlapping TryLock / Unlock of the same
+     mutex: it can fail on a free mutex while another goroutine is in the
+     middle of a failing TryLock or in the tail of an Unlock.
+   The property says "succeed when the key is free and uncontended", so the
+   theorems about succeeding acquisitions carry the hypothesis [quiet c t k]:
+   no OTHER thread stands at ANY mutex-operation step (Lock, TryLock, Unlock,
+   RLock, TryRLock, RUnlock: [is_post_label]) of a call on the same key, i.e.
+   nobody else is operating on, or queued at, the key's mutex at this moment.
+   The [_machine] theorems of InsertOnly.v / ClearKey.v / Progress.v (no such
+   hypothesis) are facts about the abstract machine only and are not exported
+   as property theorems.
    The theorems about FAILING / WAITING acquisitions and mutual exclusion need
-   no such hypothesis: a queue only ever makes the real mutex refuse more. *)
+   no such hypothesis: queueing and non-atomicity only ever make the real mutex
+   refuse more. *)
 From Typ Require Import SyncMap.Model SyncMap.Inv SyncMap.KeyedMutex SyncMap.InsertOnly SyncMap.Progress SyncMap.ClearKey.
 
-Definition lock_wait_label (l : label) : bool := match l with KM_Lock | KRW_Lock | KRW_RLock => true | _ => false end.
+(* thread t2 stands at a mutex-operation step of a call on key k *)
+Definition at_mutex (c : config) (t2 : nat) (k : Z) : Prop :=
+  exists f, top_frame c t2 = Some f /\ key_of (f_call f) = k /\ is_post_label (f_pc f) = true.
+(* nobody but t does: the key is uncontended for t *)
+Definition quiet (c : config) (t : nat) (k : Z) : Prop := forall t2, t2 <> t -> ~ at_mutex c t2 k.
 
-(* thread t2 stands at the blocking Lock / RLock step of a call on key k *)
-Definition awaits (c : config) (t2 : nat) (k : Z) : Prop :=
-  exists f, top_frame c t2 = Some f /\ key_of (f_call f) = k /\ lock_wait_label (f_pc f) = true.
-(* nobody but t does *)
-Definition uncontended (c : config) (t : nat) (k : Z) : Prop := forall t2, t2 <> t -> ~ awaits c t2 k.
-
-Definition uncontendedb (c : config) (t : nat) (k : Z) : bool :=
+Definition quietb (c : config) (t : nat) (k : Z) : bool :=
   forallb (fun t2 => Nat.eqb t2 t ||
              match top_frame c t2 with
-             | Some f => negb (Z.eqb (key_of (f_call f)) k && lock_wait_label (f_pc f))
+             | Some f => negb (Z.eqb (key_of (f_call f)) k && is_post_label (f_pc f))
              | None => true
              end) (seq 0 (length (c_threads c))).
 
-Lemma uncontendedb_ok c t k : uncontendedb c t k = true -> uncontended c t k.
+Lemma quietb_ok c t k : quietb c t k = true -> quiet c t k.
 Proof.
-  unfold uncontendedb. rewrite forallb_forall. intros H t2 N (f & Tt & Hk & Hl).
+  unfold quietb. rewrite forallb_forall. intros H t2 N (f & Tt & Hk & Hl).
   assert (Hlt : t2 < length (c_threads c)).
   { unfold top_frame in Tt. destruct (nth_error (c_threads c) t2) eqn:E; [|discriminate]. eapply nth_error_lt; eauto. }
   specialize (H t2 ltac:(apply in_seq; lia)). cbn in H. rewrite Tt, Hk, Z.eqb_refl, Hl in H.
@@ -71,41 +78,41 @@ Hypothesis Hfr : fresh_values progs.
 
 Theorem trylock_succeeds_when_key_free t ch c' f :
   top_frame c t = Some f -> (f_pc f = KM_TryLock \/ f_pc f = KRW_TryLock) ->
-  (forall t2 b, (t2, key_of (f_call f), b) ∉ holders c) -> uncontended c t (key_of (f_call f)) ->
+  (forall t2 b, (t2, key_of (f_call f), b) ∉ holders c) -> quiet c t (key_of (f_call f)) ->
   step c t ch = Some c' ->
   completed (c_hist c') = completed (c_hist c) ++ [(t, f_call f, RBool true)] /\ holds_excl c' t (key_of (f_call f)).
 Proof. intros Tt Hpc Hfree _ Hs. exact (trylock_succeeds_when_key_free_machine progs sched t ch c' f Hp Hfr Hd Tt Hpc Hfree Hs). Qed.
 
 Theorem tryrlock_succeeds_when_key_not_write_held t ch c' f :
   top_frame c t = Some f -> f_pc f = KRW_TryRLock ->
-  (forall t2, ~ holds_excl c t2 (key_of (f_call f))) -> uncontended c t (key_of (f_call f)) ->
+  (forall t2, ~ holds_excl c t2 (key_of (f_call f))) -> quiet c t (key_of (f_call f)) ->
   step c t ch = Some c' ->
   completed (c_hist c') = completed (c_hist c) ++ [(t, f_call f, RBool true)] /\ holds_shared c' t (key_of (f_call f)).
 Proof. intros Tt Hpc Hfree _ Hs. exact (tryrlock_succeeds_when_key_not_write_held_machine progs sched t ch c' f Hp Hfr Hd Tt Hpc Hfree Hs). Qed.
 
 Theorem lock_succeeds_when_key_free t ch f :
   top_frame c t = Some f -> (f_pc f = KM_Lock \/ f_pc f = KRW_Lock) ->
-  (forall t2 b, (t2, key_of (f_call f), b) ∉ holders c) -> uncontended c t (key_of (f_call f)) ->
+  (forall t2 b, (t2, key_of (f_call f), b) ∉ holders c) -> quiet c t (key_of (f_call f)) ->
   exists c', step c t ch = Some c' /\ completed (c_hist c') = completed (c_hist c) ++ [(t, f_call f, RUnit)] /\
              holds_excl c' t (key_of (f_call f)).
 Proof. intros Tt Hpc Hfree _. exact (lock_succeeds_when_key_free_machine progs sched t ch f Hp Hfr Hd Tt Hpc Hfree). Qed.
 
 Theorem rlock_succeeds_when_key_not_write_held t ch f :
   top_frame c t = Some f -> f_pc f = KRW_RLock ->
-  (forall t2, ~ holds_excl c t2 (key_of (f_call f))) -> uncontended c t (key_of (f_call f)) ->
+  (forall t2, ~ holds_excl c t2 (key_of (f_call f))) -> quiet c t (key_of (f_call f)) ->
   exists c', step c t ch = Some c' /\ completed (c_hist c') = completed (c_hist c) ++ [(t, f_call f, RUnit)] /\
              holds_shared c' t (key_of (f_call f)).
 Proof. intros Tt Hpc Hfree _. exact (rlock_succeeds_when_key_not_write_held_machine progs sched t ch f Hp Hfr Hd Tt Hpc Hfree). Qed.
 
 (* What a thread can wait for: m.mu in the hands of another thread, or - at the blocking Lock / RLock step of
    a call on k - key k itself: k held incompatibly, or (in Go; never the reason in the queue-less machine)
-   k contended, i.e. another thread queued at k's mutex. No other key occurs. *)
+   k contended, i.e. another thread operating on or queued at k's mutex. No other key occurs. *)
 Theorem blocked_only_by_mu_or_own_key t f i :
   c_insts c = [i] -> top_frame c t = Some f -> (forall ch, step c t ch = None) ->
   (is_lock_label (f_pc f) = true /\ exists t', t' <> t /\ i_mu i = Some t') \/
   ((f_pc f = KM_Lock \/ f_pc f = KRW_Lock) /\
-     ((exists t2 b, (t2, key_of (f_call f), b) ∈ holders c) \/ ~ uncontended c t (key_of (f_call f)))) \/
-  (f_pc f = KRW_RLock /\ ((exists t2, holds_excl c t2 (key_of (f_call f))) \/ ~ uncontended c t (key_of (f_call f)))).
+     ((exists t2 b, (t2, key_of (f_call f), b) ∈ holders c) \/ ~ quiet c t (key_of (f_call f)))) \/
+  (f_pc f = KRW_RLock /\ ((exists t2, holds_excl c t2 (key_of (f_call f))) \/ ~ quiet c t (key_of (f_call f)))).
 Proof.
   intros Hi Tt Hb. destruct (blocked_only_by_mu_or_own_key_machine progs sched t f i Hp Hfr Hd Hi Tt Hb) as [H|[[H1 H2]|[H1 H2]]]; auto.
 Qed.
@@ -140,28 +147,28 @@ Hypothesis Hfr : fresh_values progs.
 
 Theorem ck_trylock_succeeds_when_key_free t ch c' f :
   top_frame c t = Some f -> (f_pc f = KM_TryLock \/ f_pc f = KRW_TryLock) ->
-  (forall t2 b, (t2, key_of (f_call f), b) ∉ holders c) -> uncontended c t (key_of (f_call f)) ->
+  (forall t2 b, (t2, key_of (f_call f), b) ∉ holders c) -> quiet c t (key_of (f_call f)) ->
   step c t ch = Some c' ->
   completed (c_hist c') = completed (c_hist c) ++ [(t, f_call f, RBool true)] /\ holds_excl c' t (key_of (f_call f)).
 Proof. intros Tt Hpc Hfree _ Hs. exact (ck_trylock_succeeds_when_key_free_machine progs sched Hp Hd Hfr t ch c' f Tt Hpc Hfree Hs). Qed.
 
 Theorem ck_tryrlock_succeeds_when_key_not_write_held t ch c' f :
   top_frame c t = Some f -> f_pc f = KRW_TryRLock ->
-  (forall t2, ~ holds_excl c t2 (key_of (f_call f))) -> uncontended c t (key_of (f_call f)) ->
+  (forall t2, ~ holds_excl c t2 (key_of (f_call f))) -> quiet c t (key_of (f_call f)) ->
   step c t ch = Some c' ->
   completed (c_hist c') = completed (c_hist c) ++ [(t, f_call f, RBool true)] /\ holds_shared c' t (key_of (f_call f)).
 Proof. intros Tt Hpc Hfree _ Hs. exact (ck_tryrlock_succeeds_when_key_not_write_held_machine progs sched Hp Hd Hfr t ch c' f Tt Hpc Hfree Hs). Qed.
 
 Theorem ck_lock_succeeds_when_key_free t ch f :
   top_frame c t = Some f -> (f_pc f = KM_Lock \/ f_pc f = KRW_Lock) ->
-  (forall t2 b, (t2, key_of (f_call f), b) ∉ holders c) -> uncontended c t (key_of (f_call f)) ->
+  (forall t2 b, (t2, key_of (f_call f), b) ∉ holders c) -> quiet c t (key_of (f_call f)) ->
   exists c', step c t ch = Some c' /\ completed (c_hist c') = completed (c_hist c) ++ [(t, f_call f, RUnit)] /\
              holds_excl c' t (key_of (f_call f)).
 Proof. intros Tt Hpc Hfree _. exact (ck_lock_succeeds_when_key_free_machine progs sched Hp Hd Hfr t ch f Tt Hpc Hfree). Qed.
 
 Theorem ck_rlock_succeeds_when_key_not_write_held t ch f :
   top_frame c t = Some f -> f_pc f = KRW_RLock ->
-  (forall t2, ~ holds_excl c t2 (key_of (f_call f))) -> uncontended c t (key_of (f_call f)) ->
+  (forall t2, ~ holds_excl c t2 (key_of (f_call f))) -> quiet c t (key_of (f_call f)) ->
   exists c', step c t ch = Some c' /\ completed (c_hist c') = completed (c_hist c) ++ [(t, f_call f, RUnit)] /\
              holds_shared c' t (key_of (f_call f)).
 Proof. intros Tt Hpc Hfree _. exact (ck_rlock_succeeds_when_key_not_write_held_machine progs sched Hp Hd Hfr t ch f Tt Hpc Hfree). Qed.
@@ -170,11 +177,11 @@ End ck.
 (* ---- non-vacuity: a TryLockKey(7) and a LockKey(7); UnlockKey(7) ---- *)
 Definition un_ex_progs : list (list call) :=
   [[CLoadOrStore 0 7 1001 PTryLock]; [CLoadOrStore 0 7 2001 PLock; CLoadOrStore 0 7 2002 PUnlock]].
-(* A: thread 1 is through; thread 0 stands at its TryLock step: key 7 free and uncontended *)
+(* A: thread 1 is through; thread 0 stands at its TryLock step: key 7 free and quiet *)
 Definition un_ex_schedA : list (nat * Z) := repeat (1%nat, 0%Z) 20 ++ repeat (0%nat, 0%Z) 2.
-(* B: both stand at their mutex step: key 7 free but CONTENDED for thread 0 (thread 1 stands at KM_Lock) *)
+(* B: both stand at their mutex step: key 7 free but NOT quiet for thread 0 (thread 1 stands at KM_Lock) *)
 Definition un_ex_schedB : list (nat * Z) := repeat (1%nat, 0%Z) 6 ++ repeat (0%nat, 0%Z) 6.
-Definition un_ex_obs (c : config) := (map thread_label (c_threads c), holders c, uncontendedb c 0 7).
+Definition un_ex_obs (c : config) := (map thread_label (c_threads c), holders c, quietb c 0 7).
 
 Lemma un_ex_progs_io : io_progs un_ex_progs.
 Proof. repeat constructor. Qed.
@@ -182,4 +189,34 @@ Lemma un_ex_progs_fresh : fresh_values un_ex_progs.
 Proof.
   intros c1 c2 H1 H2. cbn in H1, H2.
   destruct H1 as [<-|[<-|[<-|[]]]], H2 as [<-|[<-|[<-|[]]]]; cbn; reflexivity.
+Qed.
+
+(* ---- RW examples: a reader holds key 7; a TryRLockKey, a (writer's) LockKey and an RLockKey of key 7 ---- *)
+Definition rw_ex_progs : list (list call) :=
+  [[CLoadOrStore 0 7 1001 PRLock]; [CLoadOrStore 0 7 2001 PTryRLock]; [CLoadOrStore 0 7 3001 PWLock]; [CLoadOrStore 0 7 4001 PRLock]].
+Definition rw_ex_run (l : list (nat * nat)) : config :=
+  run_schedule (init_config 1 rw_ex_progs) (concat (map (fun tn => repeat (tn.1, 0%Z) tn.2) l)).
+Definition rw_ex_obs (c : config) := (map thread_label (c_threads c), holders c, map_to_list (c_um c)).
+Lemma rw_ex_progs_io : io_progs rw_ex_progs.
+Proof. repeat constructor. Qed.
+Lemma rw_ex_progs_fresh : fresh_values rw_ex_progs.
+Proof.
+  intros c1 c2 H1 H2. cbn in H1, H2.
+  destruct H1 as [<-|[<-|[<-|[<-|[]]]]], H2 as [<-|[<-|[<-|[<-|[]]]]]; cbn; reflexivity.
+Qed.
+
+(* ---- with ClearKey: thread 0 holds key 7 exclusively (and will clear it later); the others stand at the
+   TryRLock / RLock / TryLock / Lock step of key 7 ---- *)
+Definition ckw_ex_progs : list (list call) :=
+  [[CLoadOrStore 0 7 1001 PWLock; CLoadOrStore 0 7 1002 PWUnlock; CDelete 0 7]; [CLoadOrStore 0 7 2001 PTryRLock];
+   [CLoadOrStore 0 7 3001 PRLock]; [CLoadOrStore 0 7 4001 PWTryLock]; [CLoadOrStore 0 7 5001 PWLock]].
+Definition ckw_ex_sched : list (nat * Z) :=
+  repeat (0%nat, 0%Z) 7 ++ repeat (1%nat, 0%Z) 6 ++ repeat (2%nat, 0%Z) 2 ++ repeat (3%nat, 0%Z) 2 ++ repeat (4%nat, 0%Z) 2.
+Lemma ckw_ex_progs_ok : ck_progs ckw_ex_progs.
+Proof. repeat constructor. Qed.
+
+Lemma ck_ex_progs_fresh : fresh_values ck_ex_progs.
+Proof.
+  intros c1 c2 H1 H2. cbn in H1, H2.
+  destruct H1 as [<-|[<-|[<-|[<-|[<-|[<-|[]]]]]]], H2 as [<-|[<-|[<-|[<-|[<-|[<-|[]]]]]]]; cbn; try reflexivity; discriminate.
 Qed.
